@@ -27,7 +27,7 @@ def evaluate(patch, props=None, repo="/repo"):
             return {"error": "patch does not apply: " + p.stdout[-300:]}
         os.environ["HN_SCRATCH"] = base
         try:
-            P = F.load_program(wt, os.path.join(base, "cache"))
+            P = F.load_program(wt, os.environ.get("HN_EVAL_CACHE") or os.path.join(base, "cache"))
         except F.FactsError as e:
             return {"error": "does not build: " + str(e)[-800:]}
         known = {(k["property"], k["rule"], k["key"]) for k in R.load_known().get("findings", [])}
